@@ -24,8 +24,8 @@ from vsim.tape import Tape, mix
 from vsim.world import World, dec, enc
 
 ID = "C11"
-RUNS = {"quick": 320, "thorough": 12000}
-WALL = {"quick": 1500, "thorough": 6 * 3600}
+RUNS = {"quick": 320, "thorough": 6400}
+WALL = {"quick": 3600, "thorough": 8 * 3600}
 
 STEP_CAP_BASE = 50_000_000      # >= 16x the largest count observed on the unchanged tree without many_funcs (3.1M)
 STEP_CAP_HEAVY = 20_000_000_000  # many_funcs inputs are super-linear in the pinned tree (2000 functions: 84M events)
